@@ -115,6 +115,87 @@ def run(ctx):
     ctx.correspond("bin_de_fault_model", bde, nontrivial=lambda c, i: i == "ERR:io")
     # <<< a_c20
 
+    # >>> w_tdef (wave 5): the extracted walk model of the TEXT reader deserializer (TextDeReader.deser_text_reader, the
+    # function Props/C20_textde.v is stated over: TextDeStream.sde_root over the byte-level reader with Fail events)
+    # run on the SAME fault cases, plus directed documents (ghost objects, ignored containers, tuples, operators,
+    # quoted scalars, `==`) under 1-/2-/3-byte reads with a fault at every read-call index
+    tde = ["c20.tde" + c[len("de.text"):] for c in fcases if c.startswith("de.text\t")]
+    ctx.correspond("text_de_fault_model", tde, nontrivial=lambda c, i: i == "ERR:io")
+    H = lambda b: hx(b if isinstance(b, bytes) else b.encode())
+    directed = [
+        (b'a=1 b={1 2 3} {} c={x=1 y=2} d="q r" e=yes\n', "struct(%s:i32,%s:seq(i32),%s:ign,%s:str,%s:bool)" % tuple(H(k) for k in "abcde")),
+        (b'a={1 2} {} b={ {} k=v } c=3', "map(ign)"),
+        (b't={1 2} u={3 4} v=1', "struct(%s:tup(i32,i32),%s:tup(i32,i32),%s:i32)" % (H("t"), H("u"), H("v"))),
+        (b't={1 2} u={3 4 5}', "struct(%s:tup(i32,i32),%s:tup(i32,i32))" % (H("t"), H("u"))),
+        (b'a>=5 b<3 c==4 d=7', "map(prop(i32))"),
+        (b'a = b c== d e = = f', "map(str)"),
+        (b'\xef\xbb\xbfa="x y" # c\nb=@[1+2] c={}', "map(any)"),
+        (b'a=1 a=2 b={a=1} a=3', "struct(%s*:i32,%s:opt(map(i32)))" % (H("a"), H("b"))),
+        (b'k=rgb {1 2 3} m=hsv{ 1 2 }', "map(any)"),
+        (b'a="unterminated', "map(str)"),
+        (b'a={1 2', "map(seq(i32))"),
+    ]
+    dcalls, dmeta = [], []
+    for txt, shp in directed:
+        for enc in ("w1252", "utf8"):
+            for buf, sched in ((16, "1*"), (16, "2*"), (24, "3,1*"), (64, "-")):
+                dcalls.append("\t".join(["c20.tde.calls", "reader:%d:%s" % (buf, sched), enc, shp, hx(txt)]))
+                dmeta.append((txt, shp, enc, buf, sched))
+    ic, mc = ctx.correspond("text_de_calls_model", dcalls, nontrivial=lambda c, i: i.endswith("ok"))
+    bcalls = len(ic) - len(dcalls)
+    # fault-free values of the directed documents: short reads of any size never change the result (oracle), model = code
+    dclean = [c.replace("c20.tde.calls", "c20.tde", 1) for c in dcalls]
+    icl, _ = ctx.correspond("text_de_directed_clean", dclean, nontrivial=lambda c, i: not i.startswith("ERR"))
+    bcl = len(icl) - len(dclean)
+    cleanv = {}
+    for j, m in enumerate(dmeta):
+        o = icl[bcl + j]
+        cleanv[m] = o
+        ref = cleanv.setdefault((m[0], m[1], m[2]), o)
+        if o in ("PANIC", "ABORT", "HANG"):
+            fail("fault-panic", "fault-free run: %s" % o, [dclean[j]], [o], ref)
+        elif o != ref:
+            fail("short-read-changes-value", "buffer %d, schedule %s gives %s; 1-byte reads through a 16-byte buffer give %s" % (m[3], m[4], o[:120], ref[:120]), [dclean[j]], [o], ref)
+    dfault = []
+    for j, (txt, shp, enc, buf, sched) in enumerate(dmeta):
+        o = ic[bcalls + j]
+        # number of read calls of the fault-free run (successful runs print it; failing ones: bound by the size)
+        try:
+            ncalls = int(o.split()[0].split("=")[1]) if o.endswith("ok") else len(txt) + 3
+        except (ValueError, IndexError):
+            continue
+        ks = list(range(ncalls)) if ncalls <= ctx.scale(30, 400) else sorted(set(rng.randrange(ncalls) for _ in range(ctx.scale(30, 400))))
+        for k in ks:
+            for kf in ("F", "P"):
+                dfault.append("\t".join(["c20.tde", "reader:%d:%s@%d%s" % (buf, sched, k, kf), enc, shp, hx(txt)]))
+            dfault.append("\t".join(["c20.tde.calls", "reader:%d:%s@%dF" % (buf, sched, k), enc, shp, hx(txt)]))
+    idf, _ = ctx.correspond("text_de_directed_faults", dfault, nontrivial=lambda c, i: i in ("ERR:io", "err"))
+    bdf = len(idf) - len(dfault)
+    # oracle on the real code (C20_text_deser_reader_fault_at_k): a run with a failure at read call k that still returns
+    # Ok has issued at most k read calls
+    for j, c in enumerate(dfault):
+        o = idf[bdf + j]
+        if c.startswith("c20.tde\t"):
+            # a run that returns Ok returns the fault-free value; any other outcome is the I/O error or the fault-free error
+            a = c.split("\t")
+            _, bufs, schedk = a[1].split(":")
+            ref = cleanv.get((bytes.fromhex(a[4]) if a[4] != "-" else b"", a[3], a[2]))
+            if ref is None:
+                continue
+            if o in ("PANIC", "ABORT", "HANG"):
+                fail("fault-panic", "directed document, %s: %s" % (a[1], o), [c], [o], "ERR:io")
+            elif not o.startswith("ERR"):
+                if o != ref:
+                    fail("fault-wrong-value", "directed document, %s: the fault is swallowed: the call returns %s, the fault-free run returns %s" % (a[1], o[:150], ref[:150]), [c], [o], ref)
+            elif o != "ERR:io" and o != ref:
+                fail("fault-other-error", "directed document, %s: surfaces as %s instead of an I/O error (fault-free: %s)" % (a[1], o, ref[:100]), [c], [o], "ERR:io")
+        if c.startswith("c20.tde.calls") and o.endswith("ok"):
+            k = int(c.split("\t")[1].split("@")[1][:-1])
+            ncall = int(o.split()[0].split("=")[1])
+            if ncall > k:
+                fail("fault-reached-but-ok", "failure at read call %d, the run issued %d read calls and still returned Ok" % (k, ncall), [c], [o], "err")
+    # <<< w_tdef
+
 
 def search(ctx):
     import random
